@@ -222,6 +222,29 @@ def coef_error_range_abs(table, key, lo, hi, e_in):
     return e_max, (m_max if m_max is not None else IV(-math.inf, math.inf))
 
 
+def consumer_functions(name):
+    """the real functions a consumer name stands for (reported under functions_under_contract with their source hash)"""
+    import cyecca.lie.group_so3 as m3, cyecca.lie.group_se3 as m6, cyecca.lie.group_se23 as m9, cyecca.lie.group_se2 as m2
+    ns = {}
+    for m in (m3, m6, m9, m2):
+        ns.update(vars(m))
+    out = [symbolic.taylor_series_near_zero]
+    n = name.replace("conv ", "")
+    parts = n.replace(")", "").split("(")
+    head = parts[0]
+    if "." in head:
+        o, meth = head.split(".", 1)
+        o = {"Quat": "SO3Quat", "Mrp": "SO3Mrp", "Dcm": "SO3Dcm", "Euler": "SO3EulerB321"}.get(o, o)
+        obj = ns.get(o)
+        if obj is not None and hasattr(type(obj), meth):
+            out.append(getattr(type(obj), meth))
+        if len(parts) > 1 and parts[1] == "exp" and obj is not None:
+            for cand in (obj, ns.get("SO3" + o[-4:] if o.startswith("SE") and o[-4:] == "Quat" else ""), ns.get("SO3Mrp") if o.endswith("Mrp") else None):
+                if cand is not None and hasattr(type(cand), "exp") and getattr(type(cand), "exp") not in out:
+                    out.append(getattr(type(cand), "exp"))
+    return out
+
+
 R_CORE = 1e-7
 _trunc_cache = {}
 
@@ -285,7 +308,7 @@ class FPJob:
         self.id = f"C06.fp[{name}]"
         self.name, self.n_in, self.rot, self.build = name, n_in, rot, build
         self.other, self.nsub = other, nsub
-        self.functions = [symbolic.taylor_series_near_zero]
+        self.functions = consumer_functions(name)
         self.lemmas = ["A-FP standard floating-point model", "L-TAYLOR"]
         self.assumptions = ["A-FP: IEEE doubles, round to nearest, U = 2^-53; libm sin/cos/tan/atan/asin/acos/atan2/pow within 1 ulp; sqrt correctly rounded"]
 
@@ -521,7 +544,7 @@ class JacFiniteJob:
     def __init__(self, name, n_in, rot, build, skip_core=False, r_max=1.0):
         self.id = f"C06.jac-finite[{name}]"
         self.name, self.n_in, self.rot, self.build, self.skip_core, self.r_max = name, n_in, rot, build, skip_core, r_max
-        self.functions = [symbolic.taylor_series_near_zero]
+        self.functions = consumer_functions(name)
         self.lemmas = ["A-FP standard floating-point model", "L-NORMALIZE"]
         self.assumptions = FPJob("x", 1, (0, 1), None).assumptions + ["CasADi forward/reverse AD produces the graph that is evaluated (trusted; cyecca relies on it)"]
 
